@@ -589,7 +589,7 @@ func (it *interp) inlineFull(x *ssa.Call, fn *ssa.Function) val {
 		it.lenFact = map[string]int{} // shared with the callee: a length guard in one helper holds in the next
 	}
 	sub := &interp{fn: fn, m: it.m, env: map[ssa.Value]val{}, globals: it.globals, path: it.path, valu: it.valu,
-		decs: it.decs, dpos: it.dpos, visits: map[*ssa.BasicBlock]int{}, depth: it.depth + 1, inlined: true, lenFact: it.lenFact, params: it.params}
+		decs: it.decs, dpos: it.dpos, visits: map[*ssa.BasicBlock]int{}, depth: it.depth + 1, inlined: true, lenFact: it.lenFact, params: it.params, lazy: it.lazy}
 	for i, p := range fn.Params {
 		sub.env[p] = it.get(c.Args[i])
 	}
